@@ -114,13 +114,17 @@ def execute(c):
         for k in ("d", "c", "e"):
             c.pop(k, None)
         ty = c.get("types")
-        if ty:
-            # the public core accepts any numeric arrays and a Python int for lambda: the same numbers in other argument types
-            lam_arg = int(lam) if ty["lam"] == "int" else float(lam)
-            z = ws2d(np.array([float(v) for v in y]).astype(ty["y"]), lam_arg, np.array([float(v) for v in w]).astype(ty["w"]))
-        else:
-            z = ws2d(np.array([float(v) for v in y]), float(lam), np.array([float(v) for v in w]))
-        c["z"] = [core.rat(v) for v in z.tolist()]
+        try:
+            if ty:
+                # the public core accepts any numeric arrays and a Python int for lambda: the same numbers in other argument types
+                lam_arg = int(lam) if ty["lam"] == "int" else float(lam)
+                z = ws2d(np.array([float(v) for v in y]).astype(ty["y"]), lam_arg, np.array([float(v) for v in w]).astype(ty["w"]))
+            else:
+                z = ws2d(np.array([float(v) for v in y]), float(lam), np.array([float(v) for v in w]))
+            c["z"] = [core.rat(v) for v in z.tolist()]
+        except Exception as ex:          # an exception on an in-claim instance is an observation (no solution returned), not a harness failure
+            c["z"] = ["nan"] * len(y)
+            c["exception"] = repr(ex)[:120]
     return c
 
 
